@@ -519,6 +519,266 @@ theorem resolve_spec {cmp : α → α → Int} (hc : CmpOK cmp) (rk : α → Nat
   refine ⟨outOf (xs.foldl (rstep cmp (Gen.c19KeepNewest rk)) {}), ?_, h.asc, h.mem, h.dom⟩
   simp [resolve, finish, h.np, outOf]
 
+/-! ### any `pick` that returns one of its arguments -/
+
+structure GInv (cmp : α → α → Int) (s : RSt α) (ps : List α) : Prop where
+  np : s.panicked = false
+  asc : (outOf s).Pairwise (fun a b => cmp a b < 0)
+  mem : ∀ o ∈ outOf s, o ∈ ps
+  dom : ∀ y ∈ ps, ∃ o ∈ outOf s, cmp o y = 0
+  start : s.prev = none → s.out = []
+
+theorem gstep_spec {cmp : α → α → Int} (hc : CmpOK cmp) (pick : α → α → α)
+    (hpick : ∀ a b, pick a b = a ∨ pick a b = b) (s : RSt α) (ps : List α) (x : α)
+    (h : GInv cmp s ps) (hle : ∀ p ∈ ps, cmp p x ≤ 0) :
+    GInv cmp (rstep cmp pick s x) (ps ++ [x]) := by
+  unfold rstep
+  rw [if_neg (by rw [h.np]; simp)]
+  cases hprev : s.prev with
+  | none =>
+    have hout := h.start hprev
+    simp only []
+    have hps : ps = [] := by
+      cases ps with
+      | nil => rfl
+      | cons a as =>
+        obtain ⟨o, ho, _⟩ := h.dom a List.mem_cons_self
+        simp [outOf, hout, hprev] at ho
+    refine ⟨h.np, by simp [outOf, hout], ?_, ?_, fun e => by cases e⟩
+    · intro o ho; simp [outOf, hout] at ho; simp [ho]
+    · intro y hy
+      simp only [hps, List.nil_append, List.mem_singleton] at hy
+      exact ⟨x, by simp [outOf, hout], by rw [hy]; exact hc.refl x⟩
+  | some p =>
+    simp only []
+    have hO : outOf s = s.out ++ [p] := by simp [outOf, hprev]
+    have hasc := h.asc
+    rw [hO, List.pairwise_append] at hasc
+    obtain ⟨hasc1, _, hasc3⟩ := hasc
+    have hpx : cmp p x ≤ 0 := hle p (h.mem p (by rw [hO]; simp))
+    have memOut : ∀ o ∈ outOf s, o ∈ s.out ∨ o = p := by
+      intro o ho; rw [hO] at ho; simpa using ho
+    by_cases h0 : cmp p x = 0
+    · rw [if_pos h0]
+      by_cases hpk : pick p x = p
+      · rw [if_pos hpk]
+        refine ⟨h.np, h.asc, fun o ho => List.mem_append_left _ (h.mem o ho), ?_, h.start⟩
+        intro y hy
+        simp only [List.mem_append, List.mem_singleton] at hy
+        rcases hy with hy | hy
+        · exact h.dom y hy
+        · exact ⟨p, by rw [hO]; simp, by rw [hy]; exact h0⟩
+      · rw [if_neg hpk]
+        have hx : pick p x = x := by rcases hpick p x with e | e; exact absurd e hpk; exact e
+        rw [if_pos hx]
+        have hO' : outOf ({ s with prev := some x } : RSt α) = s.out ++ [x] := by simp [outOf]
+        refine ⟨h.np, ?_, ?_, ?_, fun e => by cases e⟩
+        · rw [hO', List.pairwise_append]
+          refine ⟨hasc1, by simp, ?_⟩
+          intro a ha b hb
+          simp only [List.mem_singleton] at hb
+          rw [hb]; exact hc.lt_of_lt_le (hasc3 a ha p (by simp)) hpx
+        · intro o ho
+          rw [hO'] at ho
+          simp only [List.mem_append, List.mem_singleton] at ho ⊢
+          rcases ho with ho | ho
+          · exact Or.inl (h.mem o (by rw [hO]; simp [ho]))
+          · exact Or.inr ho
+        · intro y hy
+          simp only [List.mem_append, List.mem_singleton] at hy
+          rcases hy with hy | hy
+          · obtain ⟨o, ho, ho1⟩ := h.dom y hy
+            rcases memOut o ho with hoo | hoo
+            · exact ⟨o, by rw [hO']; simp [hoo], ho1⟩
+            · rw [hoo] at ho1
+              exact ⟨x, by rw [hO']; simp, hc.eq_trans (hc.eq_symm h0) ho1⟩
+          · exact ⟨x, by rw [hO']; simp, by rw [hy]; exact hc.refl x⟩
+    · rw [if_neg h0]
+      have hlt : cmp p x < 0 := by omega
+      have hO' : outOf ({ s with out := s.out ++ [p], prev := some x } : RSt α) = outOf s ++ [x] := by
+        simp [outOf, hprev]
+      refine ⟨h.np, ?_, ?_, ?_, fun e => by cases e⟩
+      · rw [hO', List.pairwise_append]
+        refine ⟨h.asc, by simp, ?_⟩
+        intro a ha b hb
+        simp only [List.mem_singleton] at hb
+        rw [hb]
+        rcases memOut a ha with haa | haa
+        · exact hc.lt_of_lt_le (hasc3 a haa p (by simp)) hpx
+        · rw [haa]; exact hlt
+      · intro o ho
+        rw [hO'] at ho
+        simp only [List.mem_append, List.mem_singleton] at ho ⊢
+        rcases ho with ho | ho
+        · exact Or.inl (h.mem o ho)
+        · exact Or.inr ho
+      · intro y hy
+        simp only [List.mem_append, List.mem_singleton] at hy
+        rcases hy with hy | hy
+        · obtain ⟨o, ho, ho1⟩ := h.dom y hy
+          exact ⟨o, by rw [hO']; exact List.mem_append_left _ ho, ho1⟩
+        · exact ⟨x, by rw [hO']; simp, by rw [hy]; exact hc.refl x⟩
+
+theorem gfold_spec {cmp : α → α → Int} (hc : CmpOK cmp) (pick : α → α → α)
+    (hpick : ∀ a b, pick a b = a ∨ pick a b = b) (xs : List α) (s : RSt α) (ps : List α)
+    (h : GInv cmp s ps) (hs : (ps ++ xs).Pairwise (fun a b => cmp a b ≤ 0)) :
+    GInv cmp (xs.foldl (rstep cmp pick) s) (ps ++ xs) := by
+  induction xs generalizing s ps with
+  | nil => simpa using h
+  | cons x xs ih =>
+    simp only [List.foldl_cons]
+    have hle : ∀ p ∈ ps, cmp p x ≤ 0 := fun p hp => (List.pairwise_append.mp hs).2.2 p hp x List.mem_cons_self
+    have := ih _ (ps ++ [x]) (gstep_spec hc pick hpick s ps x h hle) (by simpa using hs)
+    simpa using this
+
+/-- duplicate resolution of a sorted sequence with any `pick` that returns one of its arguments: no panic, strictly
+ascending (one item per key), only inputs, every input key represented -/
+theorem resolve_generic {cmp : α → α → Int} (hc : CmpOK cmp) (pick : α → α → α)
+    (hpick : ∀ a b, pick a b = a ∨ pick a b = b) (xs : List α) (hs : xs.Pairwise (fun a b => cmp a b ≤ 0)) :
+    ∃ out, resolve cmp pick xs = some out ∧
+      out.Pairwise (fun a b => cmp a b < 0) ∧ (∀ o ∈ out, o ∈ xs) ∧ (∀ y ∈ xs, ∃ o ∈ out, cmp o y = 0) := by
+  have h0 : GInv cmp ({} : RSt α) [] := ⟨rfl, by simp [outOf], by simp [outOf], by simp, fun _ => rfl⟩
+  have h := gfold_spec hc pick hpick xs {} [] h0 (by simpa using hs)
+  simp only [List.nil_append] at h
+  refine ⟨outOf (xs.foldl (rstep cmp pick) {}), ?_, h.asc, h.mem, h.dom⟩
+  simp [resolve, finish, h.np, outOf]
+
+/-- a `pick` that returns a foreign value on some equal pair makes `Merge` panic at that pair: the panic is reached
+exactly when two adjacent popped items compare equal and `pick` returns neither (stated for the first pair) -/
+theorem resolve_foreign_panics {cmp : α → α → Int} (pick : α → α → α) (a b : α) (rest : List α)
+    (h0 : cmp a b = 0) (h1 : pick a b ≠ a) (h2 : pick a b ≠ b) : resolve cmp pick (a :: b :: rest) = none := by
+  have hstuck : ∀ (xs : List α) (s : RSt α), s.panicked = true → (xs.foldl (rstep cmp pick) s).panicked = true := by
+    intro xs
+    induction xs with
+    | nil => intro s h; exact h
+    | cons x xs ih => intro s h; simp only [List.foldl_cons]; apply ih; simp [rstep, h]
+  have : (List.foldl (rstep cmp pick) {} (a :: b :: rest)).panicked = true := by
+    simp only [List.foldl_cons]
+    apply hstuck
+    simp [rstep, h0, h1, h2]
+  unfold resolve finish
+  rw [if_pos this]
+
 end resolve
+
+/-! ### a consumer that stops early sees a prefix -/
+
+theorem popsN_eq (cmp : α → α → Int) (fuel n : Nat) (hn : 1 ≤ n) (s : St α) :
+    popsN cmp fuel n s = (pops cmp fuel s).take n := by
+  induction fuel generalizing n s with
+  | zero => simp [popsN, pops]
+  | succ fuel ih =>
+    unfold popsN pops
+    cases hp : Heap.pop (hlt cmp) s.heap with
+    | none => simp
+    | some r =>
+      obtain ⟨ix, h1⟩ := r
+      simp only []
+      by_cases h1n : n ≤ 1
+      · rw [if_pos h1n]
+        have : n = 1 := by omega
+        subst this
+        cases s.rests.getD ix.1 [] <;> simp
+      · rw [if_neg h1n]
+        have hn' : n = (n - 1) + 1 := by omega
+        cases s.rests.getD ix.1 [] with
+        | nil => simp only []; rw [ih (n - 1) (by omega)]; conv => rhs; rw [hn', List.take_succ_cons]
+        | cons y ys => simp only []; rw [ih (n - 1) (by omega)]; conv => rhs; rw [hn', List.take_succ_cons]
+
+section earlyResolve
+variable [DecidableEq α]
+
+theorem rstep_out (cmp : α → α → Int) (pick : α → α → α) (s : RSt α) (x : α) :
+    ((rstep cmp pick s x).out = s.out) ∨
+    ((rstep cmp pick s x).panicked = s.panicked ∧ ∃ p, (rstep cmp pick s x).out = s.out ++ [p]) := by
+  unfold rstep
+  split
+  · exact Or.inl rfl
+  · cases s.prev with
+    | none => exact Or.inl rfl
+    | some p =>
+      simp only []
+      split
+      · split
+        · exact Or.inl rfl
+        · split <;> exact Or.inl rfl
+      · exact Or.inr ⟨rfl, p, rfl⟩
+
+theorem rstep_prefix (cmp : α → α → Int) (pick : α → α → α) (xs : List α) (s : RSt α) :
+    ∃ t, (xs.foldl (rstep cmp pick) s).out = s.out ++ t := by
+  induction xs generalizing s with
+  | nil => exact ⟨[], by simp⟩
+  | cons x xs ih =>
+    simp only [List.foldl_cons]
+    obtain ⟨t, ht⟩ := ih (rstep cmp pick s x)
+    rcases rstep_out cmp pick s x with h | ⟨_, p, h⟩
+    · exact ⟨t, by rw [ht, h]⟩
+    · exact ⟨p :: t, by rw [ht, h]; simp⟩
+
+/-- relation between the full loop state and the state of the loop that stopped at `n` items -/
+def Stopped (n : Nat) (s s' : RSt α) : Prop :=
+  (s' = s ∧ s.out.length < n) ∨ (s'.out.length = n ∧ s'.panicked = false ∧ ∃ t, s.out = s'.out ++ t)
+
+theorem stopped_step (cmp : α → α → Int) (pick : α → α → α) (n : Nat) (s s' : RSt α) (x : α)
+    (h : Stopped n s s') : Stopped n (rstep cmp pick s x) (rstepN cmp pick n s' x) := by
+  unfold rstepN
+  rcases h with ⟨rfl, hlt⟩ | ⟨hl, hnp, t, ht⟩
+  · rw [if_neg (by omega)]
+    by_cases h2 : (rstep cmp pick s' x).out.length < n
+    · exact Or.inl ⟨rfl, h2⟩
+    · right
+      rcases rstep_out cmp pick s' x with h3 | ⟨h3, p, h4⟩
+      · rw [h3] at h2; omega
+      · refine ⟨by rw [h4] at h2 ⊢; simp at h2 ⊢; omega, ?_, [], by simp⟩
+        -- a step that appended was a step of a non-panicked state and does not panic
+        unfold rstep at h4 ⊢
+        by_cases hp : s'.panicked = true
+        · rw [if_pos hp] at h4; simp at h4
+        · rw [if_neg hp] at h4 ⊢
+          cases hprev : s'.prev with
+          | none => rw [hprev] at h4; simp at h4
+          | some q =>
+            rw [hprev] at h4
+            simp only [] at h4 ⊢
+            by_cases hc : cmp q x = 0
+            · rw [if_pos hc] at h4
+              split at h4
+              · simp at h4
+              · split at h4 <;> simp at h4
+            · rw [if_neg hc]; simpa using hp
+  · rw [if_pos (by omega)]
+    right
+    obtain ⟨t2, ht2⟩ := rstep_prefix cmp pick [x] s
+    simp only [List.foldl_cons, List.foldl_nil] at ht2
+    exact ⟨hl, hnp, t ++ t2, by rw [ht2, ht]; simp⟩
+
+theorem stopped_fold (cmp : α → α → Int) (pick : α → α → α) (n : Nat) (xs : List α) (s s' : RSt α)
+    (h : Stopped n s s') : Stopped n (xs.foldl (rstep cmp pick) s) (xs.foldl (rstepN cmp pick n) s') := by
+  induction xs generalizing s s' with
+  | nil => exact h
+  | cons x xs ih => simp only [List.foldl_cons]; exact ih _ _ (stopped_step cmp pick n s s' x h)
+
+/-- a consumer of `Merge` that stops at its `n`-th item sees exactly the first `n` items of the full output -/
+theorem resolveN_prefix (cmp : α → α → Int) (pick : α → α → α) (n : Nat) (hn : 1 ≤ n) (xs : List α)
+    (out : List α) (h : resolve cmp pick xs = some out) : resolveN cmp pick n xs = some (out.take n) := by
+  have hst := stopped_fold cmp pick n xs {} {} (Or.inl ⟨rfl, by show 0 < n; omega⟩)
+  unfold resolve finish at h
+  unfold resolveN finishN
+  by_cases hp : (xs.foldl (rstep cmp pick) {}).panicked = true
+  · rw [if_pos hp] at h; cases h
+  · rw [if_neg hp] at h
+    simp only [Option.some.injEq] at h
+    rcases hst with ⟨e, hlt⟩ | ⟨hl, hnp, t, ht⟩
+    · rw [e, if_neg hp, if_neg (by omega), ← h]
+      congr 1
+      symm
+      apply List.take_of_length_le
+      simp only [List.length_append]
+      cases (xs.foldl (rstep cmp pick) {}).prev <;> simp <;> omega
+    · rw [if_neg (by simp [hnp]), if_pos (by omega), ← h, ht]
+      congr 1
+      rw [List.append_assoc, List.take_append_of_le_length (by omega), List.take_of_length_le (by omega)]
+
+end earlyResolve
 
 end Rxn.Merge
